@@ -3,7 +3,8 @@
    Data/DataStep.v (every operation keeps the invariant), Data/DataTerm.v, Data/DataFrame.v
    (frame property, fresh results), Data/DataProofs.v (refusals, index rules, refutations).
    The model (Data/DataDefs.v) is tied to the C++ by the correspondence run of checks/C08.py.
-   `repaired` = the code with proposed_fixes/C08-*.diff, `as_is` = the code without them.
+   `repaired` = the code as it stands since the fix: commits 75f978a, 5a49f25 (C08) and a4dc5e5 (C07, keys by value)
+   of /repo (proposed_fixes/C08-*.diff, C07-01-*.diff); `as_is` = the code before them, kept for the refutations.
    Inv st = every reference points to a container, and no container reaches itself. *)
 From Coq Require Import ZArith List Bool Lia.
 Import ListNotations.
